@@ -7,12 +7,67 @@ import (
 	"testing"
 )
 
+// c29Run: `h <msg>` computes every helper once; `hc <msg>` additionally recomputes all helpers from
+// several goroutines on different messages at once and requires every concurrent result to equal
+// the sequential one (the helpers are called concurrently by the runtime and the network layer, so a
+// helper that shares hidden state between calls returns wrong digests only under concurrency).
 func c29Run(line string) string {
 	f := strings.Fields(line)
+	if len(f) == 2 && f[0] == "hc" {
+		m := vhUnhex(f[1])
+		want := c29Digests(m)
+		if want == "err" {
+			return "err"
+		}
+		const workers, rounds = 8, 40
+		bad := make(chan string, workers)
+		done := make(chan struct{})
+		for w := 0; w < workers; w++ {
+			go func(w int) {
+				defer func() { done <- struct{}{} }()
+				own := append(append([]byte{}, m...), byte(w)) // a different message per worker
+				ownWant := c29Digests(own)
+				for i := 0; i < rounds; i++ {
+					if w%2 == 0 {
+						if got := c29Digests(m); got != want {
+							select {
+							case bad <- got:
+							default:
+							}
+							return
+						}
+					} else if got := c29Digests(own); got != ownWant {
+						// ownWant was itself computed concurrently: compare with a recomputation
+						// after the run instead
+						select {
+						case bad <- "own":
+						default:
+						}
+						return
+					}
+				}
+			}(w)
+		}
+		for w := 0; w < workers; w++ {
+			<-done
+		}
+		select {
+		case <-bad:
+			return want + " conc=mismatch"
+		default:
+		}
+		if c29Digests(m) != want {
+			return want + " conc=mismatch"
+		}
+		return want + " conc=ok"
+	}
 	if len(f) != 2 || f[0] != "h" {
 		return "bad-op"
 	}
-	m := vhUnhex(f[1])
+	return c29Digests(vhUnhex(f[1]))
+}
+
+func c29Digests(m []byte) string {
 	b8, err := Blake2b8(m)
 	if err != nil {
 		return "err"
@@ -60,6 +115,10 @@ func c29Gen(r *vhRng) string {
 	default:
 		n = edges[r.Intn(len(edges))]
 	}
+	op := "h "
+	if r.Chance(1, 6) {
+		op = "hc "
+	}
 	b := make([]byte, n)
 	switch r.Intn(5) {
 	case 0:
@@ -74,7 +133,7 @@ func c29Gen(r *vhRng) string {
 	default:
 		copy(b, r.Bytes(n))
 	}
-	return "h " + vhHex(b)
+	return op + vhHex(b)
 }
 
 func TestVerifC29(t *testing.T) { vhMain(t, c29Gen, c29Run) }
